@@ -363,6 +363,10 @@ fn big_runs<W: Write>(d: &mut Driver<W>, rng: &mut StdRng, long: usize) {
         scripted(d, name, vec![json!([0, 1, 2]), json!([7]), json!([3]), json!([big(u32::MAX as u64), 5]), json!([big(u32::MAX as u64 + 1)]), json!([6, big(u64::MAX)]), json!([]), json!([0])], rng);
         scripted(d, name, vec![json!([0, 3, 6, 6]), json!([1]), json!([6]), json!([0]), json!([big(1 << 63), big(1 << 63)])], rng);
         scripted(d, name, vec![json!([7]), json!([0]), json!([0, 0, 0]), json!([big(u64::MAX), big(u64::MAX - 1)])], rng);
+        // the very first index is already beyond u32::MAX; stride continuations after a large spill
+        scripted(d, name, vec![json!([big(1 << 32)]), json!([0]), json!([big(1 << 32)]), json!([0, 1, 2]), json!([3])], rng);
+        scripted(d, name, vec![json!([0, 5, 10]), json!([big(1 << 32)]), json!([15]), json!([20, 20]), json!([big(u64::MAX)]), json!([1])], rng);
+        scripted(d, name, vec![json!([big(u64::MAX), 0, 0, 0]), json!([]), json!([0, 0])], rng);
     }
     // long runs: many reallocations with live early indices
     for name in ["string", "slice_str", "cols_str", "cip_str_opt", "collapse_cip_str", "slice_collapse_cip_str", "cols_collapse_cip_str", "opt_res", "slice_slice_str", "cip_str_list"] {
@@ -390,6 +394,41 @@ fn random_run_pushes_only<W: Write>(d: &mut Driver<W>, name: &str, rng: &mut Std
     }
 }
 
+/// FlatStacks whose indices are the values themselves (MirrorRegion<usize>): index values around
+/// u32::MAX and usize::MAX reach the stack's own index container, which no bounded model can enumerate
+fn stack_big_runs<W: Write>(d: &mut Driver<W>) {
+    let big = |x: u64| json!(x.to_string());
+    let seqs: Vec<Vec<Value>> = vec![
+        vec![big(1 << 32), json!(0), big(1 << 32), json!(0), json!(1)],
+        vec![json!(0), json!(5), json!(10), big(1 << 32), json!(15), json!(20), big(u64::MAX), json!(3)],
+        vec![json!(0), json!(1), json!(2), json!(2), json!(2)],
+        vec![json!(1), json!(2), big(u32::MAX as u64), big(u32::MAX as u64 + 1), json!(7), big(u32::MAX as u64)],
+        vec![big(u64::MAX), big(u64::MAX), json!(0), json!(0), big(1 << 63), json!(0)],
+        vec![json!(0), big(1 << 63), json!(0), big(1 << 63)],
+    ];
+    for name in ["fs_mirror_usize_opt", "fs_mirror_usize_list", "fs_mirror_usize_vec"] {
+        for seq in &seqs {
+            d.run += 1;
+            d.seq = 0;
+            let mut st = crate::stack::make(name);
+            d.ev(json!({"ev": "reset", "subj": name, "shape": {"k": "none"}, "nslots": 1, "dense": false, "collapse": false}));
+            for v in seq {
+                let r = guarded(|| st.copy(v));
+                if let Err(m) = r {
+                    d.ev(json!({"ev": "stack_copy", "s": 1, "v_s": canon(v), "panic": true, "msg": m, "len": 0, "is_empty": true, "items_s": [], "iter_s": [], "oob_ok": true}));
+                    break;
+                }
+                let n = st.len();
+                let items: Vec<String> = (0..n).map(|i| guarded(|| st.get(i)).map(|x| canon(&x)).unwrap_or_else(|m| format!("PANIC {m}"))).collect();
+                let iter: Vec<String> = guarded(|| st.iter_all()).map(|xs| xs.iter().map(canon).collect()).unwrap_or_else(|m| vec![format!("PANIC {m}")]);
+                let oob_ok = guarded(|| st.get(n)).is_err() && guarded(|| st.get(n + 1)).is_err();
+                let laws = guarded(|| st.iter_laws()).map(|r| r.is_ok()).unwrap_or(false);
+                d.ev(json!({"ev": "stack_copy", "s": 1, "v_s": canon(v), "panic": false, "len": n, "is_empty": st.is_empty(), "items_s": items, "iter_s": iter, "oob_ok": oob_ok && laws}));
+            }
+        }
+    }
+}
+
 /// `drive --seed N --runs K --steps S --long L --out trace.ndjson [--subjects a,b,c]`
 pub fn cmd_drive(seed: u64, runs: usize, steps: usize, long: usize, out: &str, only: Option<Vec<String>>) {
     quiet_panics();
@@ -406,6 +445,7 @@ pub fn cmd_drive(seed: u64, runs: usize, steps: usize, long: usize, out: &str, o
     }
     if only.is_none() {
         big_runs(&mut d, &mut rng, long);
+        stack_big_runs(&mut d);
     }
     let total = d.run;
     w.flush().unwrap();
